@@ -34,6 +34,7 @@ type Concrete struct {
 	Setup     func(be *rec.Backend)
 	EOF       bool
 	Abort     bool // with EOF: tear the transport down instead of an orderly close
+	IdleAuth  bool // nothing is sent until the read of the SASL response has timed out
 	Idle      bool // send nothing: wait for the server's read timeout
 	ThenEOF   bool // close the write side after the phases
 	Handshake bool
@@ -267,7 +268,8 @@ func Concretize(e *Edge, n int) Concrete {
 		k.EOF = true
 		k.Abort = c.A == "abort"
 	case "IDLE":
-		k.Idle = true
+		k.Idle = c.A != "auth"
+		k.IdleAuth = c.A == "auth"
 	case "LONG":
 		line(strings.Repeat("A", MaxLine+100))
 	case "AFTER":
@@ -465,6 +467,19 @@ func (cv *Conv) Exec(e *Edge) (divs []evid.Div, fatal error) {
 		out = append(out, o...)
 		sent = append(sent, "<EOF>")
 	}
+	if k.IdleAuth {
+		// nothing is sent until the server's read of the SASL response has failed
+		// (observed through the hook event, not by sleeping: the next step has
+		// to arrive before the idle timeout of the command loop)
+		n0 := cv.C.AuthReadErrors()
+		for dl := time.Now().Add(IdleReadTimeout*4 + 2*time.Second); cv.C.AuthReadErrors() == n0 && !cv.C.SrvEnd.Closed() && time.Now().Before(dl); {
+			time.Sleep(200 * time.Microsecond)
+		}
+		time.Sleep(2 * time.Millisecond) // anything the server writes at this point
+		o, _ := cv.C.Output()
+		out = append(out, o...)
+		sent = append(sent, "<idle during AUTH>")
+	}
 	if k.Idle {
 		// nothing is sent: the server's ReadTimeout must end the connection
 		for dl := time.Now().Add(IdleReadTimeout*4 + 2*time.Second); !cv.C.SrvEnd.Closed() && time.Now().Before(dl); {
@@ -591,7 +606,9 @@ func (cv *Conv) Exec(e *Edge) (divs []evid.Div, fatal error) {
 	}
 	if mism {
 		prop := "C04"
-		if closing && len(rs) > len(exp) && prefixOK(rs, exp) {
+		if e.Lbl.Cmd.C == "IDLE" && !closing && len(rs) > 0 && rs[len(rs)-1].Code == 421 {
+			prop = "C08" // the server says it gives up the connection, and goes on serving it
+		} else if closing && len(rs) > len(exp) && prefixOK(rs, exp) {
 			prop = "C08" // something ran after the connection was given up
 		} else if e.Lbl.Cmd.C == "LONG" || e.Lbl.Cmd.C == "BAD" {
 			prop = "C19"
